@@ -4,6 +4,7 @@
 package main
 
 import (
+	"github.com/theparanoids/ysshra/zzverifrt/vsync"
 	"fmt"
 	"os"
 
@@ -36,8 +37,9 @@ var connMonitor func(r *vnet.Reactor, op string, thread int, before bool)
 
 func main() {
 	if len(os.Args) > 1 && os.Args[1] == "-racepass" {
-		os.Exit(racePassMain(os.Args[2:]))
+		os.Exit(racePassMain(os.Args[2:])) // free-running goroutines on the real sync types: blocking there is contention
 	}
+	vsync.Sequential.Store(true) // everything outside a scheduler is single-threaded here: a blocked lock is a leaked lock
 	c := ev.Main(map[string]string{"C11": "model_checking", "C20": "model_checking"})
 	installHooks()
 	if msg := litmus(); msg != "" {
